@@ -259,7 +259,7 @@ func c03Exp() {
 
 func c03Child(csJSON []byte, t, b, ep int) (string, bool) {
 	cmd := exec.Command(os.Args[0], "c03exp", "-scratch", scratchRoot)
-	cmd.Env = append(os.Environ(), "TZ=UTC")
+	cmd.Env = append(os.Environ(), "TZ="+curTZ)
 	in, _ := json.Marshal(map[string]any{"Case": json.RawMessage(csJSON), "T": t, "B": b, "EP": ep})
 	cmd.Stdin = bytes.NewReader(in)
 	var so bytes.Buffer
